@@ -2,6 +2,7 @@ package main
 
 import (
 	"fmt"
+	"go/token"
 	"go/types"
 	"sort"
 	"strings"
@@ -77,6 +78,9 @@ func (P *Program) verifyFunc(fn *ssa.Function, fc *FuncContract, mode Mode) *Fun
 			}
 		}
 	}()
+	if isPkgInit(fn) {
+		res.Errs = append(res.Errs, P.checkInitOnlyGlobals(fn, fc)...)
+	}
 	c.decl("(declare-fun alloc0 () Int)")
 	c.decl("(assert (>= alloc0 1))")
 	fr := c.newFrame(fn, fc, 0)
@@ -219,7 +223,8 @@ func (P *Program) verifyFunc(fn *ssa.Function, fc *FuncContract, mode Mode) *Fun
 			c.assumed["frame of sort "+k+" not claimed for "+res.Func+" (opt noframe/havoc)"] = true
 		}
 		for _, k := range ks {
-			if noframe[k] {
+			if noframe[k] || (isPkgInit(fn) && !fc.ModSet) {
+				// a package initialiser exists to write the package's variables: no frame is claimed
 				continue
 			}
 			ft := fr.frameTerm(k, c.heap(r.st, k), c.heap(st0, k), "alloc0")
@@ -427,4 +432,103 @@ func (c *Ctx) splitUsing(env *SpecEnv, items []string) (names []string, extra []
 		c.lemmasUsed[lm.Name] = true
 	}
 	return
+}
+
+// checkInitOnlyGlobals: the package-level variables a package initialiser's contract speaks about
+// are written nowhere else in the package. Any other function may only load such a variable and use
+// the loaded map for lookups, range loops and len; a store to the variable, a map update or delete
+// through it, or any other use (the value escapes) is reported. This is what entitles the check of
+// the initialiser to stand for the state every later call sees, and to skip the init functions.
+func (P *Program) checkInitOnlyGlobals(initFn *ssa.Function, fc *FuncContract) []string {
+	var errs []string
+	pkg := initFn.Pkg
+	if pkg == nil {
+		return nil
+	}
+	names := map[string]bool{}
+	var walk func(x Expr)
+	walk = func(x Expr) {
+		switch x := x.(type) {
+		case *EIdent:
+			names[x.Name] = true
+		case *EUnary:
+			walk(x.X)
+		case *EBinary:
+			walk(x.X)
+			walk(x.Y)
+		case *ECond:
+			walk(x.C)
+			walk(x.A)
+			walk(x.B)
+		case *EField:
+			walk(x.X)
+		case *EIndex:
+			walk(x.X)
+			walk(x.I)
+		case *ECall:
+			for _, a := range x.Args {
+				walk(a)
+			}
+		case *EQuant:
+			walk(x.Body)
+		case *ELet:
+			walk(x.V)
+			walk(x.B)
+		}
+	}
+	for _, e := range fc.Ensures {
+		walk(e.Expr)
+	}
+	globals := map[*ssa.Global]bool{}
+	for n := range names {
+		if g, ok := pkg.Members[n].(*ssa.Global); ok {
+			globals[g] = true
+		}
+	}
+	if len(globals) == 0 {
+		return nil
+	}
+	inPkg := func(fn *ssa.Function) bool {
+		for f := fn; f != nil; f = f.Parent() {
+			if f.Pkg == pkg {
+				return true
+			}
+		}
+		return false
+	}
+	for fn := range P.allFuncs {
+		if fn == initFn || !inPkg(fn) {
+			continue
+		}
+		for _, b := range fn.Blocks {
+			for _, ins := range b.Instrs {
+				var ops [16]*ssa.Value
+				for _, op := range ins.Operands(ops[:0]) {
+					g, ok := (*op).(*ssa.Global)
+					if !ok || !globals[g] {
+						continue
+					}
+					ld, isLoad := ins.(*ssa.UnOp)
+					if !isLoad || ld.Op != token.MUL {
+						errs = append(errs, fmt.Sprintf("%s: variable %s, which the package initialiser's contract describes, is written or its address is used in %s", funcDisplay(initFn), g.Name(), funcDisplay(fn)))
+						continue
+					}
+					for _, r := range *ld.Referrers() {
+						switch r := r.(type) {
+						case *ssa.Lookup, *ssa.Range, *ssa.DebugRef:
+						case *ssa.Call:
+							if bi, ok := r.Call.Value.(*ssa.Builtin); ok && bi.Name() == "len" {
+								continue
+							}
+							errs = append(errs, fmt.Sprintf("%s: variable %s escapes or is modified in %s (%s)", funcDisplay(initFn), g.Name(), funcDisplay(fn), r.String()))
+						default:
+							errs = append(errs, fmt.Sprintf("%s: variable %s escapes or is modified in %s (%s)", funcDisplay(initFn), g.Name(), funcDisplay(fn), r.String()))
+						}
+					}
+				}
+			}
+		}
+	}
+	sort.Strings(errs)
+	return errs
 }
